@@ -37,6 +37,9 @@ func c07EndToEnd(c *vk.Ctx) {
 	// salt sizes 16 and 24/32: with the short ones the 50 bytes read ahead reach beyond the handshake
 	keys[0].Cipher = "aes-128-gcm"
 	keys[1].Cipher = pick(r, []string{"aes-192-gcm", "chacha20-ietf-poly1305", "aes-256-gcm"})
+	// the first key once more under another id (same cipher and secret): whichever id a handshake is
+	// attributed to, the same bytes presented again - from any client address - are a replay
+	keys = append(keys, KeySpec{ID: "same-material-as-" + keys[0].ID, Cipher: keys[0].Cipher, Secret: keys[0].Secret})
 	N := 30
 	cache := service.NewReplayCache(N)
 	timeout := 800 * time.Millisecond
